@@ -5,6 +5,7 @@
 // Trusted part: the opaque context types below, the error-code range facts on `to_error_code`
 // (discharged natively by job C02.codes over every strum discriminant), the serializers.
 use vstd::prelude::*;
+use std::rc::Rc;
 verus! {
 
 // ---------------------------------------------------------------- strings with a provenance tag
@@ -230,11 +231,8 @@ impl InterpreterDataEnvelope {
 pub fn current_interpreter_version() -> Version { unimplemented!() }
 
 // ---------------------------------------------------------------- C02 / C06: farewell
-pub struct FarewellError { pub x: u8 }
-impl FarewellError {
-    #[verifier::external_body]
-    pub fn unprocessed_call_result(c: CallResults) -> Self { unimplemented!() }
-}
+// real: a thiserror enum with this single variant (job C02.codes enumerates it)
+pub enum FarewellError { UnprocessedCallResult(CallResults) }
 impl ToErrorCode for FarewellError {
     open spec fn code(&self) -> i64 { FAREWELL_CODE() }
     open spec fn in_range(&self, c: i64) -> bool { c == FAREWELL_CODE() }
@@ -304,8 +302,6 @@ pub open spec fn farewell_internal_failure(e: ExecutionCtx, t: TraceHandler) -> 
 //@ props C02 C06
 //@ ret r
 //@ sig 1 "ExecutionCtx<'_>" => "ExecutionCtx"
-//@ rewrite 1 "Rc::new(FarewellError::UnprocessedCallResult(exec_ctx.call_results.clone()))" => "FarewellError::unprocessed_call_result(exec_ctx.call_results.clone())"
-//@ rewrite 1 "farewell_error.to_string()" => "opaque_string()"
 //@ spec
     ensures
         r matches Ok(o) && flags_of(o) == soft_limits_triggering,
@@ -318,6 +314,7 @@ pub open spec fn farewell_internal_failure(e: ExecutionCtx, t: TraceHandler) -> 
 pub trait ErrToString { fn to_string(&self) -> String; }
 impl ErrToString for PreparationError { #[verifier::external_body] fn to_string(&self) -> String { unimplemented!() } }
 impl ErrToString for ExecutionError { #[verifier::external_body] fn to_string(&self) -> String { unimplemented!() } }
+impl ErrToString for FarewellError { #[verifier::external_body] fn to_string(&self) -> String { unimplemented!() } }
 
 //@ lift air/src/farewell_step/outcome.rs :: fn from_uncatchable_error
 //@ props C02
